@@ -3,73 +3,97 @@ From Bfe Require Import lib.Val lib.Bytes model.StaticFile model.Compress.
 Import ListNotations.
 Open Scope Z_scope.
 
-(* op 1 (filter):  [1; VZ codec (0 gzip, 1 brotli); VZ level; VZ flushSize; VL [VB chunk ...] (source reads); VZ p (consumer buffer)]
-     observation: [VL [c per Read call ...]; VB decoded; VZ ok]   decoded = output of the standard decompressor
-                  applied to everything the consumer received up to EOF, ok = 1 iff it ended cleanly
-   op 2 (handler): [2; VZ cmd; VZ has_rule; VB Accept-Encoding; VB response Content-Encoding; VZ has Content-Length;
+(* op 1 (filter):  [1; VZ codec (0 gzip, 1 brotli); VZ level; VZ flushSize; VL [VB chunk ...] (source reads); VZ p (consumer buffer);
+                   VZ srcerr (1: after the chunks the source fails with an error instead of EOF; then p is large)]
+     observation: [VL [c per Read call ...]; VB decoded; VZ ok; VZ closes]
+                  decoded = output of the standard decompressor applied to everything the consumer received up to EOF
+                  (or up to the error), ok = 1 iff it ended cleanly at EOF, 2 iff the filter reported the source's error;
+                  closes = number of times the source was closed after filter.Close()
+   op 2 (handler): [2; VZ cmd; VZ rule (0 product without rules, 1 one matching rule, 2 only a non-matching rule,
+                    3 non-matching then matching rule); VB Accept-Encoding; VB response Content-Encoding; VZ has Content-Length;
                     VZ level; VZ flushSize; VB body]
      observation: [VB Content-Encoding after; VZ has Content-Length after; VZ wrapped (0/1 gzip/2 brotli);
                    VB body decoded according to the announced Content-Encoding; VZ ok] *)
 Definition lz_eqb (a b : list Z) : bool := list_Z_eqb a b.
-Fixpoint all_zero (l : list Z) : bool := match l with [] => true | x :: r => (x =? 0) && all_zero r end.
 Fixpoint sumZ (l : list Z) : Z := match l with [] => 0 | x :: r => x + sumZ r end.
 
-Definition run_C54 (i : val) : val :=
+Inductive op :=
+| OFilter (codec level flush : Z) (cs : list bytes) (p : Z) (srcerr : bool)
+| OHandler (cmd rule : Z) (ae cenc : bytes) (has_cl : bool) (level flush : Z) (body : bytes).
+Definition dec_C54 (i : val) : option op :=
   match i with
-  | VL [VZ 1; VZ codec; VZ level; VZ flush; chunks; VZ p] =>
-    match as_LB chunks with
-    | Some cs =>
-      (* canonical run: exactly the calls that consume the body, one that closes, one that sees EOF *)
-      let n := Z.to_nat (total cs / (if flush <=? 0 then 1 else flush) + 3) in
-      VL [vLZ (pulls flush cs n); VB (concat cs); VZ 1]
-    | None => VErr 0
-    end
-  | VL [VZ 2; VZ cmd; VZ has_rule; VB ae; VB cenc; VZ has_cl; VZ level; VZ flush; VB body] =>
-    let r := handler ae cenc (negb (has_cl =? 0)) (negb (has_rule =? 0)) cmd in
-    VL [VB (h_cenc r); vbool (h_has_clen r); VZ (h_wrapped r); VB body; VZ 1]
-  | _ => VErr 0
+  | VL [VZ 1; VZ codec; VZ level; VZ flush; chunks; VZ p; VZ se] =>
+    match as_LB chunks with Some cs => Some (OFilter codec level flush cs p (negb (se =? 0))) | None => None end
+  | VL [VZ 2; VZ cmd; VZ rule; VB ae; VB cenc; VZ has_cl; VZ level; VZ flush; VB body] =>
+    Some (OHandler cmd rule ae cenc (negb (has_cl =? 0)) level flush body)
+  | _ => None
   end.
+Definition rule_matches (rule : Z) : bool := (rule =? 1) || (rule =? 3).
+Definition fdiv (flush : Z) : Z := if flush <=? 0 then 1 else flush.
+(* source error: every Read that gets its full flushSize bytes succeeds (and flushes); the Read during which the source
+   fails returns the error and delivers nothing of what it pulled *)
+Definition err_pulls (flush total : Z) : list Z := repeat flush (Z.to_nat (total / fdiv flush)) ++ [total mod (fdiv flush)].
+Definition err_delivered (flush : Z) (cs : list bytes) : bytes :=
+  firstn (Z.to_nat ((total cs / fdiv flush) * flush)) (concat cs).
+
+Definition run_op (x : op) : val :=
+  match x with
+  | OFilter codec level flush cs p false =>
+    (* canonical run: exactly the calls that consume the body, one that closes, one that sees EOF *)
+    let n := Z.to_nat (total cs / fdiv flush + 3) in
+    VL [vLZ (pulls flush cs n); VB (concat cs); VZ 1; VZ 1]
+  | OFilter codec level flush cs p true =>
+    VL [vLZ (err_pulls flush (total cs)); VB (err_delivered flush cs); VZ 2; VZ 1]
+  | OHandler cmd rule ae cenc has_cl level flush body =>
+    let r := handler ae cenc has_cl (rule_matches rule) cmd in
+    VL [VB (h_cenc r); vbool (h_has_clen r); VZ (h_wrapped r); VB body; VZ 1]
+  end.
+Definition run_C54 (i : val) : val := match dec_C54 i with Some x => run_op x | None => VErr 0 end.
 
 (* the number of Read calls depends on compressed sizes (outside the model): the observed per-call consumption
-   must be the model's for that many calls, must consume the whole body and end with at least two empty calls
-   (close, EOF); the decoded body must be the source *)
-Definition agree_C54 (i o : val) : bool :=
-  match i with
-  | VL [VZ 1; VZ codec; VZ level; VZ flush; chunks; VZ p] =>
-    match as_LB chunks, o with
-    | Some cs, VL [obs; VB dec; VZ ok] =>
+   must be the model's for that many calls, must consume the whole body; the decoded body must be the source *)
+Definition agree_op (x : op) (o : val) : bool :=
+  match x with
+  | OFilter codec level flush cs p false =>
+    match o with
+    | VL [obs; VB dec; VZ ok; VZ closes] =>
       match as_LZ obs with
       | Some l => lz_eqb (pulls flush cs (length l)) l && (sumZ l =? total cs)
-                  && (ok =? 1) && bytes_eqb dec (concat cs)
+                  && (ok =? 1) && bytes_eqb dec (concat cs) && (closes =? 1)
       | None => false
       end
-    | _, _ => false
+    | _ => false
     end
-  | _ => val_eqb (run_C54 i) o
+  | _ => val_eqb (run_op x) o
   end.
+Definition agree_C54 (i o : val) : bool := match dec_C54 i with Some x => agree_op x o | None => false end.
 
 (* ---- the property, from the statement *)
-Definition prop_C54 (i o : val) : bool :=
-  match i, o with
-  | VL [VZ 1; VZ codec; VZ level; VZ flush; chunks; VZ p], VL [obs; VB dec; VZ ok] =>
-    (* the compressed stream decompresses to exactly the backend body *)
-    match as_LB chunks with Some cs => (ok =? 1) && bytes_eqb dec (concat cs) | None => false end
-  | VL [VZ 2; VZ cmd; VZ has_rule; VB ae; VB cenc; VZ has_cl; VZ level; VZ flush; VB body],
-    VL [VB cenc'; VZ has_cl'; VZ wrapped; VB dec; VZ ok] =>
+Definition prop_op (x : op) (o : val) : bool :=
+  match x, o with
+  | OFilter codec level flush cs p false, VL [obs; VB dec; VZ ok; VZ closes] =>
+    (* the compressed stream decompresses to exactly the backend body; the backend body is closed once *)
+    (ok =? 1) && bytes_eqb dec (concat cs) && (closes =? 1)
+  | OFilter codec level flush cs p true, VL [obs; VB dec; VZ ok; VZ closes] =>
+    (* a failing backend: the error is reported, never a clean end, and what was delivered is a prefix of the body *)
+    (ok =? 2) && is_prefix dec (concat cs) && (closes =? 1)
+  | OHandler cmd rule ae cenc has_cl level flush body, VL [VB cenc'; VZ has_cl'; VZ wrapped; VB dec; VZ ok] =>
     let compressed := negb (wrapped =? 0) in
     (* whatever happened, the client can recover the backend body with the announced encoding *)
     (ok =? 1) && bytes_eqb dec body
     && (if compressed then
-          (* announced encoding is the one applied and the request accepted it; no stale Content-Length;
-             only responses that were not already encoded *)
+          (* announced encoding is the one applied, the request accepted it and a matching rule asks for it;
+             no stale Content-Length; only responses that were not already encoded *)
           ((bytes_eqb cenc' GZIP && (wrapped =? 1) && has_token ae GZIP && (cmd =? 0))
            || (bytes_eqb cenc' BR && (wrapped =? 2) && has_token ae BR && (cmd =? 1)))
-          && (has_cl' =? 0) && (bytes_eqb cenc [] || bytes_eqb cenc IDENTITY) && negb (has_rule =? 0)
+          && (has_cl' =? 0) && (bytes_eqb cenc [] || bytes_eqb cenc IDENTITY) && rule_matches rule
         else
           (* untouched: same Content-Encoding, Content-Length kept *)
-          bytes_eqb cenc' cenc && (has_cl' =? (if has_cl =? 0 then 0 else 1)))
+          bytes_eqb cenc' cenc && (has_cl' =? (if has_cl then 1 else 0)))
     (* a response that is already encoded is never touched *)
     && (if negb (bytes_eqb cenc []) && negb (bytes_eqb cenc IDENTITY) then negb compressed else true)
   | _, _ => false
   end.
+Definition prop_C54 (i o : val) : bool := match dec_C54 i with Some x => prop_op x o | None => false end.
 Definition kf_C54 (i : val) : Z := 0.
+Definition wf_C54 (i : val) : bool := match dec_C54 i with Some _ => true | None => false end.
